@@ -114,6 +114,12 @@ func (c Case) hooks(k int, trace string) (up, down, before, after []string) {
 		}
 	}
 	down, before, after = []string{tok(trace, fmt.Sprintf("down:%d", k))}, []string{tok(trace, fmt.Sprintf("cb:%d", k))}, []string{tok(trace, fmt.Sprintf("ca:%d", k))}
+	if c.Mode == "cancel-up" {
+		up = append([]string{"sleep 0.08"}, up...) // the runner is cancelled while this is running
+	}
+	if c.Mode == "cancel-before" {
+		before = append(before, "sleep 0.08") // the runner is cancelled while a task is inside this hook
+	}
 	if c.absent(k, 0) {
 		up = nil
 	}
@@ -286,6 +292,62 @@ func (c Case) check(lines []string, ran []bool, errs []error, sequential bool) e
 	return nil
 }
 
+// checkEarly: the oracle of the modes that cancel the runner while a context is brought up or inside its before hook.
+func (c Case) checkEarly(lines []string) error {
+	for k := 0; k < c.NCtx; k++ {
+		ks := fmt.Sprint(k)
+		ntasks := 0
+		for _, t := range c.Tasks {
+			if t.Ctx == k {
+				ntasks++
+			}
+		}
+		var ups, downs, cbs, cas, others int
+		for _, l := range lines {
+			p := strings.Split(l, ":")
+			if p[len(p)-1] != ks {
+				continue
+			}
+			switch p[0] {
+			case "up":
+				ups++
+				if others+downs > 0 {
+					return fmt.Errorf("context %d: `up` completed after a hook or command of a task in that context: %v", k, lines)
+				}
+			case "down":
+				downs++
+			default:
+				others++
+				if downs > 0 {
+					return fmt.Errorf("context %d: a hook or command (%s) ran after `down`: %v", k, l, lines)
+				}
+				if ups == 0 && !c.absent(k, 0) {
+					return fmt.Errorf("context %d: %s ran before `up` had completed: %v", k, l, lines)
+				}
+				if c.UpFail[k] {
+					return fmt.Errorf("context %d: `up` failed but %s ran: %v", k, l, lines)
+				}
+				switch p[0] {
+				case "cb":
+					cbs++
+				case "ca":
+					cas++
+					if cas > cbs && !c.absent(k, 2) {
+						return fmt.Errorf("context %d: `after` ran %d times when `before` had run %d times: %v", k, cas, cbs, lines)
+					}
+				}
+			}
+		}
+		if ups > 1 || downs > 1 || cbs > ntasks || cas > ntasks {
+			return fmt.Errorf("context %d (%d tasks): up ran %d, down %d, before %d, after %d times: %v", k, ntasks, ups, downs, cbs, cas, lines)
+		}
+		if !c.absent(k, 2) && !c.absent(k, 3) && cbs != cas {
+			return fmt.Errorf("context %d, runner cancelled in phase %s: `before` ran %d times but `after` %d times - every execution that got its before hook gets its after hook, also when it fails: %v", k, c.Mode, cbs, cas, lines)
+		}
+	}
+	return nil
+}
+
 func runAPI(c Case, trace string) error {
 	os.Remove(trace)
 	ctxs := map[string]*runner.ExecutionContext{}
@@ -353,6 +415,30 @@ func runAPI(c Case, trace string) error {
 		r.Cancel()
 		wg.Wait()
 		errs = nil
+	case "cancel-up", "cancel-before":
+		// everything starts together; the runner is cancelled while the context is being brought up, or while a task
+		// is inside the context's before hook, and then finished. Whatever the tasks still get to do: every before
+		// hook that ran is paired with an after hook, up and down run at most once and bracket everything else
+		var wg sync.WaitGroup
+		for i := range c.Tasks {
+			wg.Add(1)
+			go func(i int) { defer wg.Done(); errs[i] = r.Run(mk(i)) }(i)
+		}
+		if c.Mode == "cancel-before" {
+			deadline := time.Now().Add(150 * time.Millisecond)
+			for time.Now().Before(deadline) {
+				if b, _ := os.ReadFile(trace); strings.Contains(string(b), "cb:") {
+					break
+				}
+				time.Sleep(2 * time.Millisecond)
+			}
+		}
+		time.Sleep(25 * time.Millisecond)
+		r.Cancel()
+		wg.Wait()
+		r.Finish()
+		b, _ := os.ReadFile(trace)
+		return c.checkEarly(strings.Fields(string(b)))
 	case "scheduler":
 		var ss []*scheduler.Stage
 		tasks := make([]*task.Task, len(c.Tasks))
@@ -559,7 +645,7 @@ func TestAPI(t *testing.T) {
 	root := t.TempDir()
 	k := 0
 	rapid.Check(t, func(rt *rapid.T) {
-		c := genCase(rt, rapid.SampledFrom([]string{"parallel", "parallel", "sequential", "scheduler", "cancel"}).Draw(rt, "mode"))
+		c := genCase(rt, rapid.SampledFrom([]string{"parallel", "parallel", "sequential", "scheduler", "cancel", "cancel-up", "cancel-before"}).Draw(rt, "mode"))
 		k++
 		record(c)
 		drv.Sample(c)
